@@ -4,7 +4,7 @@ import verifylib as V
 
 ASSUME = [
     "partial claim (DESIGN.md C18/§6): 'for all points' is an encode/decode law; covered are finite value classes (every field type, ints beyond 2^53 and MinInt64, strings with quote/comma/space/newline/unicode/backslash/equals, empty and awkward tag sets, three batch group shapes, empty batches) in both clock modes and three clock zeros, plus seeded sequences",
-    "payloads are compared literally (type + decimal text) by TLC; time in whole seconds relative to an aligned epoch (sub-second precision handling is not explored)",
+    "payloads are compared literally (type + decimal text) by TLC; time in whole seconds relative to an aligned epoch, plus a nanosecond-resolution family (1 ns, 999 ns, 1 s +- 1 ns, negative offsets) within +-2.1 s of it",
     "the driver's clock never waits (data time only; the service runs use the fast clock, whose zero is time.Now(): live-time outputs are rebased on the first delivered item and the specification demands the one constant shift for every other timestamp)",
     "batch recordings reach the service as archive files in its directory (the on-disk form of a finished recording); recording batches from InfluxDB queries (startRecordBatch) is not exercised",
 ]
